@@ -285,11 +285,11 @@ PROPS["C02"] = dict(
     assumptions=["preconditions established by scgi::on_first_read (buffer size > 16, sep_ < 16, buffer_[sep_] == 0) are assumed for the header walk"],
     outside="event-loop survival, isolation between connections, 'handler called at most once' across the whole service, HTTP and FastCGI front ends' framing (see C01), sockets",
     obligations=[
-        dict(id="C02.e", harness="C02_scgi.cpp", entry="h_c02e_scgi_walk_safety", ctors=False, clang_flags=["-fno-inline"],
+        dict(id="C02.e", mem_gb=13, harness="C02_scgi.cpp", entry="h_c02e_scgi_walk_safety", ctors=False, clang_flags=["-fno-inline"],
              drop=["_ZN6cppcms4impl10string_map3addEPKcS3_"], roots=["verif_env_add"], models=["stubs_c02.c"],
              desc="scgi::on_headers_chunk_read on an arbitrary header block: never reads outside buffer_, completion handler called exactly once",
              tiers=T(quick=dict(split=[[1, 2, 3]], unwind=20, unwindset={SCGI_WALK: "p0+2", "X_strlen.0": "p0+3", "verif_memcpy.0": "p0+3"}, timeout=900, bounds="17-byte netstring, walked region of 1..3 arbitrary bytes"))),
-        dict(id="C02.g", harness="C02_request.cpp", entry="h_c02g_content_start", ctors=False, models=["stubs_httpfile.c"],
+        dict(id="C02.g", mem_gb=13, harness="C02_request.cpp", entry="h_c02g_content_start", ctors=False, models=["stubs_httpfile.c"],
              noop=["multipart_parserC[12]E", "multipart_parser16set_content_type"],
              desc="request::on_content_start for an arbitrary 64-bit declared length: returns 0/400/413, never throws, allocates exactly the declared length and only within the configured limit; a negative length is refused",
              tiers=T(quick=dict(unwind=52, timeout=900, bounds="content_length: any 64-bit value; limits 0..16 bytes; content-type class and filter kind symbolic"))),
@@ -303,7 +303,7 @@ PROPS["C01"] = dict(
     assumptions=["names and values contain no NUL byte (they become C strings)"],
     outside="HTTP header tokenizer and request line (std::stack/std::string state machine: no verdict within budget), FastCGI record reassembly, cross-front-end equivalence, keep-alive sequencing, cookies and form fields (urldecode: C15), socket layer",
     obligations=[
-        dict(id="C01.c", harness="C01_fastcgi.cpp", entry="h_c01c_fcgi_roundtrip", ctors=False, clang_flags=["-fno-inline"],
+        dict(id="C01.c", mem_gb=13, harness="C01_fastcgi.cpp", entry="h_c01c_fcgi_roundtrip", ctors=False, clang_flags=["-fno-inline"],
              drop=["_ZN6cppcms4impl10string_map3addEPKcS3_"], roots=["verif_env_add"], models=["stubs_c02.c"],
              desc="fastcgi::parse_pairs/read_len: decoding the FastCGI name-value encoding (1-byte and 4-byte length forms, chosen symbolically per field) returns exactly the encoded pairs in order",
              tiers=T(quick=dict(split=[[1, 2], [0, 1]], unwind=22, unwindset={"F__ZN6cppcms4impl3cgi7fastcgi11parse_pairsEv.0": 4, "verif_memcpy.0": 5, "F__ZN6cppcms4impl11string_pool3addEPKcm.0": 4, "F__ZL15cstrlen_boundedPKh.0": 5}, timeout=900, bounds="first pair: name length in {1,2}, value length in {0,1}, symbolic bytes; second pair fixed; each of 4 length fields in either form"))),
@@ -313,7 +313,7 @@ PROPS["C01"] = dict(
         dict(id="C01.d2", harness="C01_fastcgi.cpp", entry="h_c01d_async_body", ctors=False, clang_flags=["-fno-inline"],
              desc="fastcgi::on_body_read (asynchronous record path): after a record's body arrived, body_ = previously accumulated bytes + this record's content, padding stripped exactly; handler called once",
              tiers=T(quick=dict(split=[[0, 3]], unwind=20, timeout=600, bounds="0 or 3 bytes accumulated before; content 0..4, padding 0..7, bytes symbolic"))),
-        dict(id="C01.e", harness="C02_scgi.cpp", entry="h_c01e_scgi_pairs", ctors=False, clang_flags=["-fno-inline"],
+        dict(id="C01.e", mem_gb=13, harness="C02_scgi.cpp", entry="h_c01e_scgi_pairs", ctors=False, clang_flags=["-fno-inline"],
              drop=["_ZN6cppcms4impl10string_map3addEPKcS3_"], roots=["verif_env_add"], models=["stubs_c02.c"],
              desc="scgi::on_headers_chunk_read: a well-formed netstring header block delivers exactly its NUL-separated pairs, in order",
              tiers=T(quick=dict(split=[[1, 2], [0, 1]], unwind=22, unwindset={SCGI_WALK: 5, "X_strlen.0": 5, "verif_memcpy.0": 5, "F__ZL15cstrlen_boundedPKh.0": 5}, timeout=900, bounds="first pair: name length in {1,2}, value length in {0,1}, symbolic bytes; second pair fixed"))),
@@ -327,7 +327,7 @@ PROPS["C02"]["obligations"].append(
              desc="fastcgi::non_blocking_read_record on an arbitrary read cache: never reads outside cache_, cursors never cross, a record is consumed only when fully present (same obligation as C01.d, claimed here for memory safety)",
              tiers=T(quick=dict(split=[[0, 2]], unwind=20, timeout=900, bounds="16-byte cache with arbitrary bytes and arbitrary cursors; 0 or 2 bytes already in body_"))))
 PROPS["C02"]["obligations"].append(
-        dict(id="C02.c", harness="C01_fastcgi.cpp", entry="h_c02c_fcgi_safety", ctors=False, clang_flags=["-fno-inline"],
+        dict(id="C02.c", mem_gb=13, harness="C01_fastcgi.cpp", entry="h_c02c_fcgi_safety", ctors=False, clang_flags=["-fno-inline"],
              drop=["_ZN6cppcms4impl10string_map3addEPKcS3_"], roots=["verif_env_add"], models=["stubs_c02.c"],
              desc="fastcgi::parse_pairs on an arbitrary params body never reads outside body_ (length fields up to 2^31 included)",
              tiers=T(quick=dict(split=[[0, 1, 2, 4, 6]], unwind=12, unwindset={"F__ZN6cppcms4impl3cgi7fastcgi11parse_pairsEv.0": "p0+2"}, timeout=900, bounds="every body of length 0,1,2,4,6 (exact-size heap block)"))))
